@@ -8,7 +8,7 @@ import subprocess
 import tracegen as tg
 import vlib
 
-THEOREMS = ["C20_replay_frees_traced_block", "C20_unknown_free_changes_nothing", "C20_final_count",
+THEOREMS = ["C20_replay_frees_traced_block", "C20_unknown_free_changes_nothing", "C20_free_never_panics", "C20_final_count",
             "C20_final_count_no_overwrite", "C20_allocator_spec", "C20_first_fit_ok", "C20_old_refuted"]
 EVAL_TARGET = os.path.join(vlib.TARGET, "eval")
 CLASSES_JSON = os.path.join(vlib.REPO, "results", "classes.json")
